@@ -17,6 +17,8 @@ TYPE = '_syncapi._tcp.local.'
 NAME = 'Mine.' + TYPE
 HOST = 'mine-host.local.'
 ADDR = {'A': '10.9.0.1', 'B': '10.9.0.2'}
+GHOST = 'Ghost.' + TYPE          # announced once to B by a third party with a TTL of one second: expired, not yet purged, when looked up
+SHORT = 'Short.' + TYPE          # announced and withdrawn while B's listener is still busy with an earlier callback
 
 
 def record(sid: str, variant: int = 0) -> Optional[dict]:
@@ -33,6 +35,8 @@ def record(sid: str, variant: int = 0) -> Optional[dict]:
             e = {'ev': _ev, 't': int((time.monotonic() - t0) * 1000)}
             e.update(kw)
             events.append(e)
+    if variant == 3:
+        return record_foreign_loop(sid, ev, events)
     try:
         zcs = {'A': Zeroconf(interfaces=['127.0.0.1']), 'B': Zeroconf(interfaces=['127.0.0.1'])}
     except Exception:  # noqa: BLE001
@@ -84,26 +88,49 @@ def record(sid: str, variant: int = 0) -> Optional[dict]:
     for who in zcs:
         zcs[who].async_send = make_send(who)            # type: ignore[method-assign]
 
+    def who_is(name: str) -> str:
+        return {NAME.lower(): 'mine', SHORT.lower(): 'short', GHOST.lower(): 'ghost'}.get(name.lower(), 'other')
+
+    def inject(zc: Any, answers: list) -> None:
+        data = wire.build(flags=0x8400, answers=answers)
+        zc.loop.call_soon_threadsafe(zc.engine.protocols[0].datagram_received, data, ('10.9.0.3', const._MDNS_PORT))
+    slow = {'armed': variant == 2}
+
     class L(ServiceListener):
         def add_service(self, zc: Any, type_: str, name: str) -> None:
-            ev('cb', kind='add', mine=name.lower() == NAME.lower())
+            ev('cb', kind='add', mine=name.lower() == NAME.lower(), name=who_is(name))
+            if slow['armed'] and who_is(name) == 'mine':
+                # a listener that is slow (the documented get_service_info from add_service can take seconds): meanwhile another
+                # instance is announced and, in a later datagram, withdrawn
+                slow['armed'] = False
+                inject(zc, [(TYPE, wire.T_PTR, 1, 4500, SHORT)])
+                time.sleep(0.3)
+                inject(zc, [(TYPE, wire.T_PTR, 1, 0, SHORT)])
+                time.sleep(0.3)
 
         def remove_service(self, zc: Any, type_: str, name: str) -> None:
-            ev('cb', kind='rem', mine=name.lower() == NAME.lower())
+            ev('cb', kind='rem', mine=name.lower() == NAME.lower(), name=who_is(name))
 
         def update_service(self, zc: Any, type_: str, name: str) -> None:
-            ev('cb', kind='upd', mine=name.lower() == NAME.lower())
+            ev('cb', kind='upd', mine=name.lower() == NAME.lower(), name=who_is(name))
     a, b = zcs['A'], zcs['B']
 
-    def lookup(timeout: int, registered: bool, port: int) -> None:
-        ev('api', op='lookup', timeout=timeout, registered=registered)
+    def settled(what: str) -> None:
+        ptrs = sorted({who_is(r.alias) for r in b.cache.get_all_by_details(TYPE, const._TYPE_PTR, const._CLASS_IN)
+                       if not r.is_expired(time.monotonic() * 1000)})
+        ev('settled', what=what, ptrs=ptrs)
+
+    def lookup(timeout: int, registered: bool, port: int, name: str = NAME) -> None:
+        ev('api', op='lookup', timeout=timeout, registered=registered, name=who_is(name))
         try:
-            info = b.get_service_info(TYPE, NAME, timeout)
+            info = b.get_service_info(TYPE, name, timeout)
             ev('api_ret', op='lookup', ok=info is not None, port=(info.port or 0) if info else 0, want=port,
                host=bool(info and (info.server or '').lower() == HOST), addr=bool(info and socket.inet_aton('10.9.0.1') in info.addresses))
         except Exception as ex:  # noqa: BLE001
             ev('api_ret', op='lookup', ok=False, port=0, want=port, host=False, addr=False, exc=type(ex).__name__)
     try:
+        inject(b, [(GHOST, wire.T_SRV, 1 | 0x8000, 1, (0, 0, 9, HOST)), (GHOST, wire.T_TXT, 1 | 0x8000, 1, b'\x03g=1'),
+                   ('ghost-host.local.', wire.T_A, 1 | 0x8000, 1, bytes([10, 9, 0, 3])), (HOST, wire.T_A, 1 | 0x8000, 1, bytes([10, 9, 0, 1]))])
         if variant % 2 == 0:
             b.add_service_listener(TYPE, L())
             ev('bstart')
@@ -119,8 +146,10 @@ def record(sid: str, variant: int = 0) -> Optional[dict]:
             b.add_service_listener(TYPE, L())
             ev('bstart')
         time.sleep(0.5)
-        ev('settled', what='registered')
+        settled('registered')
         lookup(3000, True, 8001)
+        # (every record of the ghost expired a second or more ago and has not been purged yet: not found, and not from those)
+        lookup(500, False, 0, GHOST)
         info2 = ServiceInfo(TYPE, NAME, 8002, properties=b'\x03a=2', server=HOST, addresses=[socket.inet_aton('10.9.0.1')])
         ev('api', op='upd')
         try:
@@ -128,9 +157,11 @@ def record(sid: str, variant: int = 0) -> Optional[dict]:
             ev('api_ret', op='upd', ok=True)
         except Exception as ex:  # noqa: BLE001
             ev('api_ret', op='upd', ok=False, exc=type(ex).__name__)
-        time.sleep(1.3)
-        ev('settled', what='updated')
-        lookup(1000, True, 8002)
+        if variant != 2:
+            time.sleep(1.3)
+            settled('updated')
+            lookup(1000, True, 8002)
+        # (variant 2: unregistered straight after the update returned -- update_service is a barrier for what follows)
         ev('api', op='unreg')
         try:
             a.unregister_service(info2)
@@ -138,7 +169,7 @@ def record(sid: str, variant: int = 0) -> Optional[dict]:
         except Exception as ex:  # noqa: BLE001
             ev('api_ret', op='unreg', ok=False, exc=type(ex).__name__)
         time.sleep(1.5)
-        ev('settled', what='unregistered')
+        settled('unregistered')
         lookup(700, False, 0)
         for who in ('A', 'B'):
             ev('api', op='close', who=who)
@@ -150,6 +181,54 @@ def record(sid: str, variant: int = 0) -> Optional[dict]:
     except Exception as ex:  # noqa: BLE001
         ev('exc', what=type(ex).__name__, msg=str(ex)[:100])
     time.sleep(1.0)
+    ev('end')
+    return {'id': sid, 'events': events}
+
+
+def record_foreign_loop(sid: str, ev: Any, events: List[dict]) -> Optional[dict]:
+    """One blocking Zeroconf constructed inside an application's running loop (no loop thread of its own), a record listener that
+    close() does not remove, an address record with a TTL of one second in the cache, close() called from another thread while
+    the loop keeps running: nothing may reach the listener afterwards -- the periodic purge (first due 10 s after start) included."""
+    import asyncio
+    from vf import wire
+    from zeroconf import RecordUpdateListener, Zeroconf, const
+    out: Dict[str, Any] = {}
+
+    class RL(RecordUpdateListener):
+        def async_update_records(self, zc: Any, now: float, records: Any) -> None:
+            ev('cb', kind='rec', mine=False, name='other')
+
+        def async_update_records_complete(self) -> None:
+            pass
+
+    async def app() -> None:
+        loop = asyncio.get_running_loop()
+        try:
+            zc = Zeroconf(interfaces=['127.0.0.1'])
+        except Exception:  # noqa: BLE001
+            out['skip'] = True
+            return
+        zc.async_send = lambda *a, **k: ev('send', who='A', uc=False, kind='other', port=0, nrec=0) if not zc.done else None   # type: ignore[method-assign]
+        await zc.async_wait_for_start()
+        zc.add_listener(RL(), None)
+        await asyncio.sleep(0.05)          # (the synchronous add_listener hands the registration to the loop)
+        data = wire.build(flags=0x8400, answers=[('solo-host.local.', wire.T_A, 1 | 0x8000, 1, bytes([10, 9, 0, 7]))])
+        zc.engine.protocols[0].datagram_received(data, ('10.9.0.3', const._MDNS_PORT))
+        await asyncio.sleep(0.4)
+        ev('api', op='close', who='A')
+        try:
+            await loop.run_in_executor(None, zc.close)
+            ev('api_ret', op='close', who='A', ok=True)
+        except Exception as ex:  # noqa: BLE001
+            ev('api_ret', op='close', who='A', ok=False, exc=type(ex).__name__)
+        await asyncio.sleep(10.6)
+    events[0]['solo'] = True
+    try:
+        asyncio.run(app())
+    except Exception as ex:  # noqa: BLE001
+        ev('exc', what=type(ex).__name__, msg=str(ex)[:100])
+    if out.get('skip'):
+        return None
     ev('end')
     return {'id': sid, 'events': events}
 
@@ -166,7 +245,11 @@ def record_in_subprocess(sid: str, variant: int) -> Optional[dict]:
     raise RuntimeError('sync-api recorder failed: %s' % (p.stdout + p.stderr)[-800:])
 
 
-def run(ctx: Any, own: str, variants: Any = (0, 1)) -> None:
+VARIANTS = {'C09': (0, 1), 'C18': (0, 1), 'C08': (0, 1, 2), 'C07': (0, 1, 2), 'C17': (0, 1, 3), 'C04': (2,)}
+
+
+def run(ctx: Any, own: str, variants: Any = None) -> None:
+    variants = variants or VARIANTS[own]
     from props import trace_run
     from vf.core import Machinery
     traces, skipped = [], []
